@@ -542,6 +542,8 @@ class C12(object):
                     "Min_s": ss.min(), "Max_s": ss.max(), "Min_f": fs.min(), "Max_f": fs.max(),
                     "Min_o": om.min(), "Max_o": om.max()}
             for name, w in want.items():
+                if I.sum() == 0 and name in ("s_raw", "f_raw", "omega", "sc", "fc"):
+                    continue    # zero total intensity (negative thresholds): an intensity-weighted centroid is not defined
                 lim = 5.1e-5 + 1e-9 * abs(w)
                 if name in ("Number_of_pixels", "IMax_s", "IMax_f", "Min_s", "Max_s", "Min_f", "Max_f"):
                     lim = 0.0
